@@ -470,6 +470,9 @@ func (in *Interp) execLoop(f *Frame, M *Loop) {
 
 func (in *Interp) execBlock(f *Frame, b *ssa.BasicBlock, g *Term) {
 	ts := in.ts
+	if in.expired.Load() {
+		abortf("job wall-clock limit exceeded")
+	}
 	if g.IsFalse() || in.isKnownFalse(g) {
 		in.skipBlock(f, b)
 		return
